@@ -2,7 +2,9 @@ From Coq Require Import List Arith NArith Bool.
 From V.gen Require ConnExits.
 From V.Mgr Require Import Model Caps.
 From V.Ts Require Import Report ReportProofs.
-From V.C07 Require Import Model Proofs Compose Block BlockProofs.
+From V.gen Require ConnSkel.
+From V.Ts Require Names.
+From V.C07 Require Import Model Proofs Compose Block BlockProofs Skel SkelProofs Loop LoopProofs.
 Import ListNotations.
 Open Scope N_scope.
 From V.C07 Require Import Properties.
@@ -178,3 +180,72 @@ Check (C07_block_delivered_exactly_once :
 Check (C07_block_waits_until_drained :
   forall me p es s, forallb (leaves_alone p) es = true -> busy_at me (s_ch s) p = true ->
   busy_at me (s_ch (fst (brun s es))) p = true /\ cnt_out (is_mgr me) (snd (brun s es)) = 0%nat).
+Check (C07_tcp_skeleton_is_model :
+  forall t e, gone t = None -> in_range t e = true ->
+  agrees (skel_step ConnSkel.tcp_start ConnSkel.tcp_handlers t e) t e).
+Check (C07_ws_skeleton_is_model :
+  forall t e, gone t = None -> in_range t e = true -> agrees (skel_step ConnSkel.ws_start [] t e) t e).
+Check (C07_quic_skeleton_is_model :
+  forall t e, gone t = None -> in_range t e = true -> agrees (skel_step ConnSkel.quic_start [] t e) t e).
+Check (C07_skeleton_shape :
+  guards_ok ConnSkel.tcp_start = true /\ guards_ok ConnSkel.ws_start = true /\ guards_ok ConnSkel.quic_start = true /\
+  map fst ConnSkel.tcp_start = [1; 2; 3] /\ map fst ConnSkel.ws_start = [1; 2; 3] /\ map fst ConnSkel.quic_start = [1; 2; 3] /\
+  ConnSkel.tcp_skel_complete = true /\ ConnSkel.ws_skel_complete = true /\ ConnSkel.quic_skel_complete = true).
+Check (C07_codec_panic_site :
+  forall t i ob, (i <? length (alive t))%nat = false ->
+  snd (skel_step ConnSkel.tcp_start ConnSkel.tcp_handlers t (ENeg (NegOk i ob))) = Some RPanic /\
+  snd (skel_step ConnSkel.ws_start [] t (ENeg (NegOk i ob))) = Some RPanic /\
+  snd (skel_step ConnSkel.quic_start [] t (ENeg (NegOk i ob))) = Some RPanic).
+Check (C07_codec_total :
+  forall tbl nm, NoDup (Names.all_names tbl) -> Names.classify tbl nm <> None ->
+  exists i, proto_index tbl nm = Some i /\ (i < length tbl)%nat).
+Check (C07_advertised_in_range :
+  forall tbl nm t ob, NoDup (Names.all_names tbl) -> Names.classify tbl nm <> None -> length (alive t) = length tbl ->
+  exists i, proto_index tbl nm = Some i /\ in_range t (ENeg (NegOk i ob)) = true).
+Check (C07_accept_skeleton :
+  forall a al mup,
+  a = ConnSkel.tcp_accept \/ a = ConnSkel.ws_accept \/ a = ConnSkel.quic_accept \/ a = ConnSkel.webrtc_accept ->
+  accept_skel a al = (snd (accept al mup), Some true) /\ fst (accept al mup) = Some (mkTask al mup None)).
+Check (C07_report_closed_skeleton :
+  forall al mup, pset_result al mup ConnSkel.pset_report_connection_closed = Some (report_closed al mup)).
+Check (C07_report_established_skeleton :
+  forall al mup, pset_result al mup ConnSkel.pset_report_connection_established = Some (report_established al)).
+Check (C07_webrtc_exits_report :
+  ConnSkel.webrtc_loop_found = true /\ ConnSkel.webrtc_loop_exits <> [] /\
+  forallb webrtc_exit_ok ConnSkel.webrtc_loop_exits = true /\
+  ends_with_closed_report ConnSkel.webrtc_on_connection_closed = true).
+Check (C07_app_event_map :
+  app_map ConnSkel.TEV_CLOSED = Some ConnSkel.APP_CLOSED /\ app_map ConnSkel.TEV_ESTABLISHED = Some ConnSkel.APP_ESTABLISHED /\
+  (forall v, In v ConnSkel.transport_event_variants -> app_map v = Some ConnSkel.APP_CLOSED -> v = ConnSkel.TEV_CLOSED) /\
+  (forall v, In v ConnSkel.transport_event_variants -> app_map v = Some ConnSkel.APP_ESTABLISHED -> v = ConnSkel.TEV_ESTABLISHED) /\
+  In ConnSkel.TEV_CLOSED ConnSkel.transport_event_variants /\ In ConnSkel.TEV_ESTABLISHED ConnSkel.transport_event_variants /\
+  In ConnSkel.APP_CLOSED ConnSkel.app_event_variants /\ In ConnSkel.APP_ESTABLISHED ConnSkel.app_event_variants /\
+  NoDup (map fst ConnSkel.app_map_arms)).
+Check (C07_loop_is_model_run :
+  forall ops s,
+  l_task (fst (lrun s ops)) = fst (crun (l_task s) (all_events s ops)) /\
+  snd (lrun s ops) = snd (crun (l_task s) (all_events s ops))).
+Check (C07_loop_lifecycle :
+  forall al fb ops,
+  let r := whole_run al fb ops in
+  let t' := l_task (fst r) in
+  gone t' <> None ->
+  (forall i, cnt (is_est_of i) (snd r) = if nth i al false then 1%nat else 0%nat) /\
+  cnt is_mgr_closed (snd r) = (if mgr_up t' then 1%nat else 0%nat) /\
+  (forall i, cnt (is_closed_of i) (snd r) = if nth i (alive t') false then 1%nat else 0%nat) /\
+  (forall i, nth i (alive t') false = true -> nth i al false = true)).
+Check (C07_loop_silent_while_running :
+  forall al fb ops, let r := whole_run al fb ops in
+  gone (l_task (fst r)) = None -> cnt is_close_note (snd r) = 0%nat).
+Check (C07_loop_running_is_held :
+  forall al fb ops, let s := fst (whole_run al fb ops) in running s = true -> any_strong (l_handle s) (l_pend s) = true).
+Check (C07_loop_ends_iff_cause :
+  forall s o, running s = true -> (running (fst (lstep s o)) = false <-> ends_conn s o = true)).
+Check (C07_loop_events_in_range :
+  forall s o e fb, l_tbl s = mk_tbl (nprot s) fb -> In e (events_of s o) -> is_loop_event e = true ->
+  forall t, length (alive t) = nprot s -> in_range t e = true).
+Check (C07_tcp_arm_site :
+  forall t e i o, gone t = None -> gone (fst (cstep t e)) = Some (i, o) ->
+  let ok := all_alive (alive t) && mgr_up t in
+  (1 <= arm_of e)%N /\ i = (2 * (N.to_nat (arm_of e) - 1) + (if ok then 1 else 0))%nat /\
+  state_code (fst (cstep t e)) = (if ok then 1 else 2)).
